@@ -384,6 +384,42 @@ C01_CLASSES = {
 }
 
 
+def crowded(fn, least=12):
+    """the same rule broken by ONE transaction of a well-filled block: the candidate of class fn plus enough valid,
+    unrelated spends to give the block 12-21 ordinary transactions, the offending one(s) at a random position"""
+    def build(world, pid, rng):
+        # the tallest block has the most spendable outputs
+        pid = max(world.chain.order, key=lambda b: (world.chain.blocks[b].height, b))
+        built = fn(world, pid, rng)
+        if built is None:
+            return None
+        rb, must, may = built
+        bad = rb.txs[1:]
+        used = {r for t in bad for r in t.refs()}
+        created = {(t.id(), i) for t in bad for i in range(len(t.outputs))}
+        extra = []
+        for _ in range(rng.choice([least - 1, least, least + 3, least + 8])):
+            t = world.make_rtx(pid, rng, exclude=used, max_in=1, max_out=2)
+            if t is None:
+                break
+            used.update(t.refs())
+            extra.append(t)
+        if len(extra) + len(bad) < least or any(r in created for t in extra for r in t.refs()):
+            return None
+        txs = list(extra)
+        for t in bad:
+            txs.insert(rng.randrange(len(txs) + 1), t)
+        return finish(world, pid, txs, rng, ts=rb.ts), must, may
+    return build
+
+
+C01_CROWDED = {"crowded:" + k: crowded(v) for k, v in {
+    "a-never-existed": c_missing_never_existed, "b-spent-in-ancestor": c_spent_in_ancestor,
+    "g-signed-by-other-key": c_signed_by_other_key, "h-altered-after-signing": c_altered_after_signing,
+    "i-placeholder-for-signature": c_placeholder_for_signature, "k-mangled-signature": c_mangled_signature,
+    "valid-spend": c_valid_spend}.items()}
+
+
 # --------------------------------------------------------------------------- C02 classes
 def _fees(world, pid, txs):
     led = world.ledger(pid)
@@ -621,8 +657,12 @@ class Stream:
 
     def witness(self, world, rblk, now, cls):
         order = world.chain.order[1:]
-        return {"chain": gen.blocks_hex(world, order), "candidate": rblk.enc().hex(), "now": now, "class": cls,
-                "period": world.params.period}
+        w = {"chain": gen.blocks_hex(world, order), "candidate": rblk.enc().hex(), "now": now, "class": cls,
+             "period": world.params.period}
+        if getattr(self, "horizon_at_head", False):
+            import skepticoin.consensus as cons
+            w["horizon"] = cons.MAX_KNOWN_HASH_HEIGHT
+        return w
 
     def attempt(self, world, rblk, now, cls, must=None, may=None, claim_valid_accept=False):
         """one monitored add_block on the state that holds the whole tree"""
@@ -759,8 +799,13 @@ class Stream:
         if ok:
             self.c["followup_valid_accepted"] += 1
 
-    def run_world(self, rng, classes, nblocks, ncand, bad_key_prob=0.15, params=None):
+    def run_world(self, rng, classes, nblocks, ncand, bad_key_prob=0.15, params=None, horizon_at_head=False):
+        """horizon_at_head: the checkpoint horizon (the height up to which in-state validation is skipped by design) is
+        set to the height of the current head before every candidate, and every candidate is built on the head -- so each
+        candidate is the FIRST block above the horizon, the lowest height at which every rule must be enforced"""
+        import skepticoin.consensus as cons
         self.rejected_pool = []
+        self.horizon_at_head = horizon_at_head
         world = gen.World(rng, params=params)
         world.bad_key_prob = bad_key_prob
         world.odd_reward_prob = rng.choice([0.0, 0.25])
@@ -769,6 +814,11 @@ class Stream:
         for k in range(ncand):
             cls = names[(k + rng.randrange(2)) % len(names)] if rng.random() < 0.7 else rng.choice(names)
             pid = self.pick_parent(world, rng)
+            if horizon_at_head:
+                pid = world.cs.current_chain_hash
+                cons.MAX_KNOWN_HASH_HEIGHT = world.cs.head().height
+                cons.KNOWN_HASHES = {}
+                self.c["candidates_first_above_horizon"] = self.c.get("candidates_first_above_horizon", 0) + 1
             try:
                 built = classes[cls](world, pid, rng)
             except (ValueError, struct.error):
@@ -777,14 +827,22 @@ class Stream:
                 self.c["class_material_missing"][cls] = self.c["class_material_missing"].get(cls, 0) + 1
                 continue
             rblk, must, may = built
+            if horizon_at_head and rblk.height <= cons.MAX_KNOWN_HASH_HEIGHT:
+                # (a class that picks its own, older parent: at or below the horizon in-state validation is skipped by design)
+                self.c["candidates_below_horizon_skipped"] = self.c.get("candidates_below_horizon_skipped", 0) + 1
+                continue
             now = rblk.ts + rng.choice([-30, -29, 0, 1, 3600])
             self.attempt(world, rblk, now, cls, must, may)
-            if rng.random() < 0.35:
+            if rng.random() < 0.35 and not horizon_at_head:       # (an older candidate may lie below the moved horizon)
                 self.reoffer(world, rng)
             if k % 9 == 8:
                 self.followup(world, rng)
             if k % 5 == 4:
+                if horizon_at_head:
+                    cons.MAX_KNOWN_HASH_HEIGHT = -1
                 world.grow(1, rng, tx_prob=0.8)
+        if horizon_at_head:
+            cons.MAX_KNOWN_HASH_HEIGHT = -1
         return world
 
     def replay(self, w, rng):
@@ -794,6 +852,10 @@ class Stream:
             rb = ref.parse_block(bytes.fromhex(hx))
             world.accept(rb, bridge.rblock_to_real(rb), validate=False)
         rb = ref.dec_block(bytes.fromhex(w["candidate"]), strict=False)[0]
+        if "horizon" in w:
+            import skepticoin.consensus as cons
+            cons.MAX_KNOWN_HASH_HEIGHT = w["horizon"]
+            cons.KNOWN_HASHES = {}
         if "offered_bytes" in w:
             self.attempt_bytes(world, rb, bytes.fromhex(w["offered_bytes"]), w["now"], w.get("class", "replay"))
             return
